@@ -1,3 +1,6 @@
 import Dalek.Props.C05.Backends
 import Dalek.Props.C05.Refinement
 import Dalek.Props.C05.Vector
+import Dalek.Props.C05.Fiat
+import Dalek.Props.C05.CfgGated
+import Dalek.Props.C05.RefinementFiat
